@@ -5,6 +5,7 @@
 //!   rates = (none) | (err "message") | (table ("CUR" "tok" "1.07")|("CUR" "base")|("CUR" "unknown") ...)
 //!   -> (("ok" "main result" unit? trailing-newline? no-spans?) | ("err" "message") ...)
 //! All expressions run on one shared context, in order, errors included.
+//! (version) -> "x.y.z"
 use fharness::sx::{self, Sx};
 
 type HErr = Box<dyn std::error::Error + Send + Sync + 'static>;
@@ -117,6 +118,7 @@ fn run(op: &str, args: &[Sx]) -> Option<Sx> {
             }
             sx::l(outs)
         }
+        "version" => sx::s(&fend_core::get_version()),
         _ => return None,
     })
 }
